@@ -112,6 +112,7 @@ def kindOf (s : String) : Option Kind :=
   match s with
   | "str" => some .str | "bool" => some .bool | "u8" => some .u8 | "u16" => some .u16 | "u32" => some .u32
   | "u64" => some .u64 | "uint" => some .uint | "i8" => some .i8 | "i16" => some .i16 | "i32" => some .i32
+  | "nstr" => some .str | "ni32" => some .i32 | "nbytes" => some .bytes
   | "i64" => some .i64 | "int" => some .int | "f32" => some .f32 | "f64" => some .f64 | "bytes" => some .bytes
   | "strs" | "i64s" | "u32s" => some .slice | "map" => some .map
   | "pstr" | "pint" | "pstruct" => some .ptr | "time" => some .time | "struct" => some .struct | "arr" => some .array
@@ -177,8 +178,13 @@ def isNilOrEmpty : Val → Bool
   | _ => false
 
 /-- reply and finding for one `val` op -/
-def answer (cfg : Hv.SdkValues.Cfg) (slot : String) (k : Kind) (om : Bool) (v : Val) : String :=
-  let r := if slot == "v" then valueRT cfg gobLib k om v else bodyRT cfg k om v
+def answer (cfg : Hv.SdkValues.Cfg) (slot : String) (k : Kind) (om : Bool) (v : Val) (first : Option Val := none) : String :=
+  -- a profile field goes through the same typed conversions as the catalog value
+  let r := if slot == "b" then bodyRT cfg k om v
+    else match first with
+      | some v1 => valueUpdRT cfg gobLib k om v1 v
+      | none => valueRT cfg gobLib k om v
+  let stale := slot != "b" && first.isSome && r != valueRT cfg gobLib k om v
   match r with
   | .err =>
     let refused := k == .array || (match v with | .str false _ => true | _ => false)
@@ -186,9 +192,11 @@ def answer (cfg : Hv.SdkValues.Cfg) (slot : String) (k : Kind) (om : Bool) (v : 
   | .ok w =>
     if w == v then "same"
     else
-      let cls := if isNilOrEmpty v && isNilOrEmpty w then "nilempty" else "diff"
+      let cls := if isNilOrEmpty v && isNilOrEmpty w then "nilempty"
+        else if stale && first == some w then "stale" else "diff"
       let fid :=
-        if om && isEmpty cfg k v then "C22-omitempty-normalises"
+        if stale then "C22-void-overwrite-keeps-old-value"
+        else if om && isEmpty cfg k v then "C22-omitempty-normalises"
         else match v with
           | .time _ _ => "C22-value-time-truncated"
           | .stru _ => "C22-struct-value-dropped"
@@ -221,8 +229,18 @@ def step (cfg : Cfg) (vcfg : Hv.SdkValues.Cfg) (_ : Unit) (line : String) : Unit
       match V.valOf k desc with
       | none => ((), "bad-op")
       | some v =>
-        if (slot != "v" && slot != "b") || (om != "0" && om != "1") then ((), "bad-op")
+        if (slot != "v" && slot != "b" && slot != "p") || (om != "0" && om != "1") then ((), "bad-op")
         else ((), V.answer vcfg slot k (om == "1") v)
+  | ["upd", slot, kind, om, d1, d2] =>
+    match V.kindOf kind with
+    | none => ((), "bad-op")
+    | some k =>
+      match V.valOf k d1, V.valOf k d2 with
+      | some v1, some v2 =>
+        if (slot != "v" && slot != "b" && slot != "p") || (om != "0" && om != "1") then ((), "bad-op")
+        -- the second save replaces the first one entirely: what comes back is the round trip of the LAST value
+        else ((), V.answer vcfg slot k (om == "1") v2 (some v1))
+      | _, _ => ((), "bad-op")
   | _ => ((), "bad-op")
 
 def run (args : List String) : IO UInt32 := do
@@ -235,7 +253,7 @@ def run (args : List String) : IO UInt32 := do
   let vcfg : Hv.SdkValues.Cfg :=
     ⟨V.pairs V.factKind V.fieldOf (arg kv "valEnc"), V.pairs V.fieldOf V.contentOf (arg kv "valStore"),
      V.pairs V.contentOf V.fieldOf (arg kv "valRead"), V.decTable (arg kv "valDec"),
-     yes "timeAsUnixSeconds", yes "structValueEncoded", yes "bodySkipsNil", yes "emptyLenZero", yes "emptyNegZero"⟩
+     yes "timeAsUnixSeconds", yes "structValueEncoded", yes "bodySkipsNil", yes "emptyLenZero", yes "emptyNegZero", yes "voidClearsContent"⟩
   lineLoop (step cfg vcfg) ()
   return 0
 
